@@ -54,3 +54,13 @@ ASSUMPTIONS = {
     ],
     "C17": ["zaptest/observer records every entry that the writer logs (observer core enabled at Debug)"],
 }
+
+TRUST = "Trusted base: Go toolchain/runtime, rapid's generators and shrinker, the reference model/oracle code in /verif/harness/props, and the standard-library packages used as reference implementations. Search-based: absence of a counterexample in the generated cases is not a proof."
+
+META = {
+    "C17": {
+        "technique": "property-based testing (rapid): op-sequence generation vs reference line model, metamorphic re-partitioning, coverage-guided fuzzing of the same property",
+        "level_text": "Generated Write/Sync/Close histories over newline-heavy byte streams are compared message-for-message with a pending-line reference model; two independent partitions of one stream must log identical messages; disabled/switching levels must log nothing while disabled. Exploration is the right level: the property quantifies over unbounded streams and partitions, and the writer is small enough that short sequences reach every branch (fast path, buffered path, empty interior lines, Sync/Close).",
+        "level_note": TRUST + " The observer core is assumed to record every logged entry.",
+    },
+}
